@@ -36,9 +36,43 @@ def compare(rep, rule, site, k, got, want, what):
         return False
     if ok:
         rep.holds(rule, site, k, f"{what} == {show(want, 160)}")
+    elif structural_difference(got, want):
+        rep.undecided(rule, site, k,
+                      f"{what} is implemented with a different control/data structure than the reference and the two "
+                      f"cannot be related by the canonical forms (not decided): {explain(got, want)}")
     else:
         rep.violated(rule, site, k, f"{what} differs from the documented form: {explain(got, want)}")
     return ok
+
+
+LEAF = ("sym", "const", "ext", "attr", "bv", "localclass")
+ARITHLIKE = ("add", "mul", "pow", "cmp", "matmul", "binop", "not", "and", "or")
+
+
+def structural_difference(got, want) -> bool:
+    """True when got and want differ by *shape* (e.g. a fold where the reference has a comprehension, a
+    conditional where the reference has a call) rather than by a local, nameable difference (another
+    constant / name / attribute / operator / argument / formula).  Only local differences are reported
+    as violations; a structural one means the analysis cannot relate the two implementations."""
+    from ..eqterms import diff, hoist_ite, logic_norm
+    a, b = logic_norm(hoist_ite(got)), logic_norm(hoist_ite(want))
+    pairs = diff(a, b, limit=12)
+    if not pairs:
+        return False
+    STRUCT = ("fold", "map", "filter", "flatmap", "scan_ys")
+    from ..terms import key as _key, walk as _walk
+    for _, x, y in pairs:
+        if not (isinstance(x, tuple) and isinstance(y, tuple) and x and y and isinstance(x[0], str) and isinstance(y[0], str)):
+            continue
+        if x[0] == y[0]:
+            continue
+        if x[0] not in STRUCT and y[0] not in STRUCT:
+            continue
+        kx, ky = _key(x), _key(y)
+        if any(_key(z) == ky for z in _walk(x)) or any(_key(z) == kx for z in _walk(y)):
+            continue  # one side wraps the other: a local, nameable difference (extra / missing operation)
+        return True
+    return False
 
 
 def run(prog: Program, rep: Report, tier: str):
